@@ -365,6 +365,21 @@ def gen_cmint(rng, n_ops, rounds):
     return ops
 
 
+def gen_cget(rng, n_ops, rounds):
+    """creation requests (POST /v1/getRoleRequestingCert) handled AT THE SAME TIME, one worker each, CIDR strings as an operator
+    types them; each certificate is at once refreshed from the worker's address (inside its own blocks or another worker's)"""
+    out = []
+    for kind, line, meta in gen_cmint(rng, n_ops, rounds):
+        workers = []
+        for nets, addr, cls in meta["workers"]:
+            if nets == ["other"] or not nets:
+                nets = [rand_block(rng, rng.randrange(8, 33))]
+            workers.append((canon_cidr_strings(rng, nets), nets, addr, cls))
+        line = "cget %d %s" % (rounds, " ".join("%s@%s" % (c.hexs(",".join(strs)), c.hexs(addr)) for strs, _, addr, _ in workers))
+        out.append((line, workers, rounds))
+    return out
+
+
 HOSTILE_NAMES = ["role2", "admin1", "root", "username", "", "role1 ", "ROLE1"]
 
 
@@ -810,6 +825,10 @@ def run(ctx):
     seq_lines = [seq_line(ctx.rng, sq) for sq in seqs]
     n_seq = len(hops)
     hops += [l for l, _ in seq_lines]
+    # creation requests handled at the same time, each certificate refreshed at once (own random stream)
+    cgets = [] if replaying else gen_cget(random.Random("C11-cget-%s" % ctx.seed), 10 if quick else 60, 20 if quick else 60)
+    n_cg = len(hops)
+    hops += [l for l, _, _ in cgets]
     # the same streams on a state the real loader built from a configuration file (baseline automation settings); when the
     # tree accepts configuration keys the pinned list does not know, every such option is switched on first
     new_opts = new_config_options(facts)
@@ -835,7 +854,8 @@ def run(ctx):
     c0 = n_cfg + 1
     out_ref = himpl[:len(hnd)] + himpl[c0:c0 + len(cfg_hnd)]
     out_get = himpl[len(hnd):n_seq] + himpl[c0 + len(cfg_hnd):c0 + len(cfg_hnd) + len(cfg_gets)]
-    out_seq = himpl[n_seq:n_cfg] + himpl[c0 + len(cfg_hnd) + len(cfg_gets):]
+    out_seq = himpl[n_seq:n_cg] + himpl[c0 + len(cfg_hnd) + len(cfg_gets):]
+    out_cget = himpl[n_cg:n_cg + len(cgets)]
     ref_lines = hops[:len(hnd)] + ["cfg " + l for l in hops[c0:c0 + len(cfg_hnd)]]
     all_hnd = hnd + cfg_hnd
     all_gets = [(g, pr, "") for g, pr in zip(gets, gprobes)] + [(g, pr, "cfg ") for g, pr in zip(cfg_gets, cfg_gprobes)]
@@ -1014,14 +1034,74 @@ def run(ctx):
             seqv.append({"key": "seq:" + origin, "what": "%s from %s: %s (judge op %s)" % (which, paddr, v, j),
                          "replay": {"handler_seq_op": origin, "judge": v, "judge_op": j, "which": which, "probe": paddr}})
     ctx.violations[:0] = seqv
+    # ------------------------------------------------------------------ creation requests handled at the same time
+    hcg = hist["concurrent_creation"] = {"ops": len(cgets), "workers": 0, "requests": 0, "results": 0, "workers_with_several_results": 0,
+                                         "verify": {}, "refresh_status": {}}
+    gmops, gmimpl, gjops, gjmeta = [], [], [], []
+    for (line, workers, rounds), out in zip(cgets, out_cget):
+        parts = out.split(" ;; ")
+        if parts[0] != "workers=%d" % len(workers) or len(parts) != len(workers) + 1:
+            ctx.broken.append("handler harness could not run op %r: %s" % (line[:200], out[:200]))
+            continue
+        hcg["workers"] += len(workers)
+        hcg["requests"] += 2 * rounds * len(workers)
+        for g, ((strs, nets, addr, cls), res) in enumerate(zip(workers, parts[1:])):
+            results = res.split(" || ")
+            hcg["results"] += len(results)
+            hcg["workers_with_several_results"] += len(results) > 1
+            ns = ",".join(blk(*x) for x in nets)
+            for r in results:
+                f = kv(r)
+                g1 = f.get("get", "?").split("|")
+                r1 = f.get("refresh", "?").split("|")
+                if g1[0] == "PANIC" or r1[0] == "PANIC" or f.get("verify") == "PANIC":
+                    c.add_violation(ctx, "panic:cget:" + line, "panic while %d other creation requests were handled (worker %d): %s" % (len(workers) - 1, g, r[:300]),
+                                    {"handler_seq_op": line, "worker": g, "impl": r})
+                    continue
+                if g1[0] != "200" or len(g1) != 5 or g1[1] != cn or g1[3] != "1":
+                    ctx.broken.append("getRoleRequestingCert %r handled with %d others: %s, expected 200 for %s and the submitted key" % (strs, len(workers) - 1, r[:200], cn))
+                    continue
+                bump(hcg["verify"], f["verify"])
+                bump(hcg["refresh_status"], r1[0])
+                x = "ok:" + g1[2] if g1[2] not in ("err", "noext") else g1[2]
+                # the certificate that came back, against the request's OWN netblocks: c11_member / c11_extract (jmint) ...
+                gjops.append("jmint %s %s %s %s" % (ns, cls, f["verify"], x))
+                gjmeta.append((line, g, "created certificate"))
+                # ... and its refresh from the worker's address: c11_refresh (jref)
+                gjops.append("jref %s %s %s 010 %s %s %s" % (cn, ns, cls, r1[0], r1[1], r1[2]))
+                gjmeta.append((line, g, "refresh of the created certificate"))
+                gmops.append("mint %s %s" % (ns, cls))
+                gmimpl.append("ext=%s verify=%s extract=%s" % (g1[4], f["verify"], x))
+                gmops.append("refm %s %s %s 010" % (cn, ns, cls))
+                gmimpl.append("issued %s %s" % (r1[1], r1[2]) if r1[0] == "200" else "status " + r1[0])
+                if f["verify"] == "t":
+                    nontrivial.add("%s#%d" % (line, g))
+    gmodel = []
+    for m in drv(ctx, "model", gmops):
+        f = kv(m)
+        if m.startswith("mint=ok"):
+            m = "ext=%s verify=%s extract=%s" % (der_ext(parse_wire_str(f["wire"])).hex(), f["verify"], f["extract"])
+        else:
+            m = m.split(" certgen=")[0]
+        gmodel.append(m)
+    c.diff_streams(ctx, "certificates created (and refreshed) while other creation requests were handled vs KM.IPBlock.mintExt / refresh of the request's own netblocks",
+                   gmops, gmimpl, gmodel)
+    cgv, seen_cg = [], set()
+    for (line, g, which), j, v in zip(gjmeta, gjops, drv(ctx, "judge", gjops)):
+        if v != "ok" and (line, g, which) not in seen_cg and len(seen_cg) < 6:
+            seen_cg.add((line, g, which))
+            cgv.append({"key": "concurrent:" + line, "what": "%s, %d other creation requests handled at the same time (worker %d): %s (judge op %s)" % (
+                which, len(line.split()) - 3, g, v, j), "replay": {"handler_seq_op": line, "worker": g, "judge": v, "judge_op": j}})
+    ctx.violations.extend(cgv)
     hist["config_file_state"] = {"report": cfg_report, "new_options": [o["path"] for o in new_opts], "refreshes": len(cfg_hnd),
                                  "creations": len(cfg_gets), "sequences": len(cfg_seqs)}
     hist["prefix_lengths_minted"] = len(hist["prefix_lengths_minted"])
     if hist["prefix_lengths_minted"] != 33 and not replaying:
         ctx.broken.append("generator covered %d of 33 prefix lengths" % hist["prefix_lengths_minted"])
     ctx.coverage.update({
-        "evaluations": len(lops) + 2 * len(all_hnd) + len(all_gets) + 2 * len(umops) + 3 * len(smops),
-        "library_ops": len(lops), "handler_requests": 2 * len(hnd) + len(gets) + 2 * len(umops), "judged": len(jops) + len(ujops) + len(ajops) + len(sjops) + len(cjops),
+        "evaluations": len(lops) + 2 * len(all_hnd) + len(all_gets) + 2 * len(umops) + 3 * len(smops) + len(cgets),
+        "library_ops": len(lops), "handler_requests": 2 * len(hnd) + len(gets) + 2 * len(umops), "judged": len(jops) + len(ujops) + len(ajops) + len(sjops) + len(cjops) + len(gjops),
+        "requests_handled_concurrently": hcg["requests"],
         "certificates_minted_concurrently": hist["concurrent"]["certificates"],
         "refreshes_with_hostile_form_parameters": hist.get("with_form_params", 0), "uses_of_refreshed_certificates": 2 * len(umops),
         "distinct_nontrivial": len(nontrivial),
